@@ -12,7 +12,7 @@ cd $WT
 rundemo() {
   case "$DEMO" in
     *_test.go) PKG=$(grep -m1 '^package ' "$DEMO" | awk '{print $2}'); DIR=$(grep -rl --include=*.go "^package $PKG\$" . | grep -v _test | head -1 | xargs dirname); [ -z "$DIR" ] && DIR=syntax
-       cp "$DEMO" $DIR/zz_seed_demo_test.go; go test -vet=off -count=1 -run 'Test' -timeout 120s ./$DIR > /tmp/vseed-demo-$$.log 2>&1; rc=$?; rm -f $DIR/zz_seed_demo_test.go; return $rc;;
+       cp "$DEMO" $DIR/zz_seed_demo_test.go; go test -vet=off -count=1 -run 'TestSeed' -timeout 120s ./$DIR > /tmp/vseed-demo-$$.log 2>&1; rc=$?; rm -f $DIR/zz_seed_demo_test.go; return $rc;;
     *.sh) mkdir -p _seed; cp -r "$(dirname "$DEMO")"/* _seed/ 2>/dev/null; go build -o /tmp/vseed-arrai-$$ ./cmd/arrai || return 3; REPO=$WT WORKTREE=$WT ROOT=$WT TREE=$WT ARRAI=/tmp/vseed-arrai-$$ bash "_seed/$(basename "$DEMO")" "$WT" > /tmp/vseed-demo-$$.log 2>&1; rc=$?; rm -rf _seed; return $rc;;
     *.go) mkdir -p /tmp/vseed-prog-$$; cp "$DEMO" cmd/zz_seed_demo_main.go 2>/dev/null; return 4;;
   esac
